@@ -431,6 +431,8 @@ func c06(p *core.Program, r *core.Report) {
 		r.Check(len(users) >= 2, rv, "wkt.y/flat_coords_point", "encoding/wkt/wkt.y", false, fmt.Sprintf("validated points are used by %v", users), "flat_coords_point is no longer the building block of point lists")
 	}
 
+	validatorThresholdRule(p, r, "validator-thresholds")
+
 	// ---- GENSYNC
 	genSyncRule(p, r, "gensync")
 
